@@ -108,3 +108,9 @@ fn vec_drain_ev<'a>(v: &mut Vec<Ev<'a>>, a: usize, b: usize) -> (r: Vec<Ev<'a>>)
 fn ev_clone<'a>(e: &Ev<'a>) -> (r: Ev<'a>)
     ensures r == *e,
 { unimplemented!() }
+
+/// explicit form of the unsizing coercion `&mut ReplayEvents` -> `&mut dyn Events` (rule R34): same object, same cursor
+#[verifier::external_body]
+fn replay_as_dyn<'a, 'b>(r: &'b mut ReplayEvents<'a>) -> (d: &'b mut dyn Events<'a>)
+    ensures d.rest() == old(r).rest(), final(r).rest() == final(d).rest(),
+{ r }
